@@ -1,6 +1,7 @@
 package engine
 
 import (
+	"strconv"
 	"encoding/json"
 	"fmt"
 	"strings"
@@ -180,6 +181,13 @@ func genC11(r *core.Rand, run int) *MuxScenario {
 				if k > n/2 {
 					op = RegOp{Kind: "regconn", Target: "b3", Fail: "dead"}
 				}
+			case 4, 5:
+				// the backend was redeployed with another version of its
+				// descriptors (one HTTP binding moved) before it registers
+				op = RegOp{Kind: "regconn", Target: r.PickS("b1", "b3", "b3"), Schema: 1 + r.Intn(2)}
+				if op.Target == "b1" || r.Chance(1, 3) {
+					op.Adv = [][]string{{svcMessaging}, {svcFiles, svcMessaging}, {tsvc, svcMessaging}}[r.Intn(3)]
+				}
 			}
 			ops = append(ops, op)
 		}
@@ -201,6 +209,9 @@ func historyString(ops []RegOp) string {
 		}
 		if op.Fail != "" {
 			s += ":" + op.Fail
+		}
+		if op.Schema != 0 {
+			s += ":v" + strconv.Itoa(op.Schema)
 		}
 		parts = append(parts, s)
 	}
